@@ -12,6 +12,7 @@ import (
 	"fmt"
 	"math/big"
 	"reflect"
+	"regexp"
 	"sort"
 	"time"
 
@@ -434,6 +435,11 @@ func c04Canonical(dir string, m any) (any, []byte, bool) {
 }
 
 // c04MessageOracle: the C04 statement on one message (already canonical for the binary codec).
+// c04SeparateEndTags matches an empty-element tag <Name attrs/> (attribute values never contain '<' or '>' raw: they are escaped).
+var c04SeparateEndTags = regexp.MustCompile(`<([A-Za-z_][\w.-]*)((?:\s+[\w:.-]+="[^"<>]*")*)\s*/>`)
+
+var c04TypeThenValue = regexp.MustCompile(`type="([^"<>]*)" value="([^"<>]*)"`)
+
 func c04MessageOracle(c *h.Ctx, dir string, m any, b0 []byte, info c04Msg, sigop string) {
 	info.Binary = hex.EncodeToString(b0)
 	info.Sig = sigop
@@ -481,6 +487,22 @@ func c04MessageOracle(c *h.Ctx, dir string, m any, b0 []byte, info c04Msg, sigop
 		b2, pan := c04TryBytes(func() []byte { return ttlv.MarshalTTLV(m2) })
 		if pan != nil || !bytes.Equal(b2, b0) {
 			c.Fail("C04/"+format+"/message-roundtrip-differs:"+sigop, fmt.Sprintf("%s message decoded from %s re-encodes to different binary TTLV (%d vs %d bytes, first difference at %d)", dir, format, len(b2), len(b0), c04FirstDiff(b2, b0)), cjd)
+			continue
+		}
+		if format == "xml" {
+			// the same document as another XML writer would produce it: an XML declaration, every empty-element tag
+			// written as a start tag and an end tag with a line break in between, a comment.  Same information.
+			alt := []byte("<?xml version=\"1.0\" encoding=\"UTF-8\"?>\n<!-- produced elsewhere -->\n" + c04SeparateEndTags.ReplaceAllString(string(doc), "<$1$2>\n</$1>"))
+			// ... and its attributes in another order (attribute order carries no information in XML)
+			alt = c04TypeThenValue.ReplaceAll(alt, []byte(`value="$2" type="$1"`))
+			m3 := c04NewMsg(dir)
+			err3, pan3 := c04TryErr(func() error { return ttlv.UnmarshalXML(alt, m3) })
+			b3, _ := c04TryBytes(func() []byte { return ttlv.MarshalTTLV(m3) })
+			c.Count("c:xml-with-separate-end-tags")
+			if pan3 != nil || err3 != nil || !bytes.Equal(b3, b0) {
+				cja := map[string]any{"part": "c", "message": info, "format": format, "doc": string(c04Trunc(alt))}
+				c.Fail("C04/xml/separate-end-tags-read-differently:"+sigop, fmt.Sprintf("the %s message written with separate end tags (<X .../> as <X ...></X>, line breaks, an XML declaration, a comment) is read differently: error %v %v, %d vs %d bytes of binary TTLV", dir, err3, pan3, len(b3), len(b0)), cja)
+			}
 		}
 	}
 	// the same message as a generic ttlv.Value tree: its text forms (numeric enumerations and masks,
